@@ -13,7 +13,8 @@ func c02Strip(s Statement) {
 }
 
 func c02Kind(kind int, tier int) {
-	g := &vfGen{tier: tier, budget: 1 + tier}
+	b, sb := vfBudget(vfStmtGens[kind].name, tier)
+	g := &vfGen{tier: tier, budget: b, sub: sb}
 	name := vfStmtGens[kind].name
 	vfStmtGens[kind].gen(g)
 	text := g.text()
